@@ -137,7 +137,7 @@ fn apply_fault(lines: &mut Vec<String>, f: &Fault, pos: u16) {
     }
 }
 
-fn case_strategy(_t: Tier) -> BoxedStrategy<Case> {
+pub fn case_strategy(_t: Tier) -> BoxedStrategy<Case> {
     prop_oneof![
         // well-formed
         3 => (complete_lines(), any::<bool>()).prop_map(|(lines, nl)| Case { lines, faults: 0, final_newline: nl }),
@@ -412,11 +412,10 @@ pub fn property() -> Property {
             random_stream("texts", "generated entry texts with 0-3 injected faults", case_strategy, |t| t.pick(100_000, 6_000_000), check),
             enumerated_stream("missing", "each required variable (and each pair) removed from a complete entry", enumerate_missing, check),
             enumerated_stream("misspelt", "every name at edit distance one from a supported name, as an extra line of a complete entry", enumerate_misspelt, check),
-            enumerated_stream("is_completed", "all subsets of required variables set through the API", subsets, check_completed),
-        ],
+            enumerated_stream("is_completed", "all subsets of required variables set through the API", subsets, check_completed), crate::fuzz::replay_stream()],
         selfcheck: m::selfcheck,
         hang_is_violation: false,
         min_nontrivial_share: 0.2,
-        extra: None,
+        extra: Some(crate::fuzz::extra),
     }
 }
